@@ -9,6 +9,7 @@ CHECKS = {
     "C03": ("harness.checks.streamfam", "model_checking"),
     "C04": ("harness.checks.streamfam", "model_checking"),
     "C06": ("harness.checks.wbicfam", "model_checking"),
+    "C07": ("harness.checks.wbmemfam", "model_checking"),
     "C11": ("harness.checks.timeoutfam", "model_checking"),
     "C15": ("harness.checks.eventfam", "model_checking"),
 }
